@@ -144,7 +144,9 @@ def eval_harness(h, r):
     kind = h.get('kind', 'verify')
     if r['status'] == 'UNKNOWN':
         raise Undecided('kani harness %s: no verdict (timeout / out of memory): %s' % (h['name'], r['raw'][-300:]))
-    if r.get('unwinding_failure') or any('unwinding assertion' in c['desc'] for c in r['failed_checks']):
+    unw = [c for c in r['failed_checks'] if 'unwinding assertion' in c['desc'] or 'recursion unwinding' in c['desc']]
+    if r['failed_checks'] and len(unw) == len(r['failed_checks']):
+        # only the loop bound of the harness is exceeded: the code's loop structure changed, no verdict
         raise Undecided('kani harness %s: unwinding bound too small for the current code (loop bound changed)' % h['name'])
     if kind == 'verify':
         if r['status'] != 'SUCCESSFUL':
